@@ -27,6 +27,10 @@ ops (the first five lines are the header):
         read and how long the file is
   then requests, all served by one `SymbolManager`, offsets interleaved:
   `req <offset> <file> [tag]` | `reqbadid <offset> <file> [tag]` | `reqmalformed <offset> <file> [tag]`
+  `reqx <debugName> <=|u<id>|b<id>> <moduleOffset string> <file> [tag]`
+        the body field by field: another library name; the module's id (`=`), a well-formed id nobody has (`u`),
+        a string `to_debug_id` rejects (`b`); the `moduleOffset` member as sent (`0x` prefix, sign, case, leading
+        zeros, overflow, junk)
 
 out:
   per lookup group, in order:
@@ -196,27 +200,39 @@ def Store.locationFor (st : Store) (dl : DebugLoc) (p : String) : Option SrcLoc 
 def Store.fileLen (st : Store) (loc : SrcLoc) : Option Nat :=
   (st.files.find? (·.1 == loc.path)).map (·.2)
 
-/-- `(offset, request)`; `id` is the debug id of the module line -/
-def parseReq (id : String) (l : String) : Option OffsetRequest :=
+/-- A request and whether it asks for the case's library (name and id of the module line). -/
+structure Req where
+  own : Bool
+  rq : OffsetRequest
+
+def parseReq (name id : String) (l : String) : Option Req :=
   match words l with
   | "req" :: o :: f :: _ => do
     let o ← o.toNat?; let f ← decodeStr f
-    pure ⟨true, some id, o, f⟩
+    pure ⟨true, ⟨true, some id, o, f⟩⟩
   | "reqbadid" :: o :: f :: _ => do
     let o ← o.toNat?; let f ← decodeStr f
-    pure ⟨true, none, o, f⟩
+    pure ⟨true, ⟨true, none, o, f⟩⟩
   | "reqmalformed" :: o :: f :: _ => do
     let o ← o.toNat?; let f ← decodeStr f
-    pure ⟨false, some id, o, f⟩
+    pure ⟨true, ⟨false, some id, o, f⟩⟩
+  | "reqx" :: n :: idTok :: off :: f :: _ => do
+    let n ← decodeStr n; let off ← decodeStr off; let f ← decodeStr f
+    let (known, dbg) ← (if idTok = "=" then some (true, some id)
+      else if idTok.startsWith "u" then (decodeStr (idTok.drop 1).toString).map (fun i => (false, some i))
+      else if idTok.startsWith "b" then some (true, none)
+      else none)
+    pure ⟨n == name && known, (⟨true, off.toList, dbg, f⟩ : RawRequest).toOffsetRequest⟩
   | _ => none
 
 structure Case where
+  name : String
   id : String
   direct : Bool
   cands : List (Option (String × DebugLoc))
   lookups : List (Nat × Lookup)
   store : Store
-  reqs : List OffsetRequest
+  reqs : List Req
 
 def lookupFn (gs : List (Nat × Lookup)) (o : Nat) : Lookup :=
   match gs.find? (·.1 == o) with
@@ -227,16 +243,16 @@ def parse (ls : List String) : Option Case :=
   match ls with
   | m :: h :: ld :: lk :: st :: reqs =>
     match words m with
-    | "module" :: _ :: _ :: id :: _ => do
+    | "module" :: _ :: name :: id :: _ => do
       let (direct, cands) ← parseHelper h
       let loaded ← parseLoaded ld
       if loaded.length ≠ cands.length then none else
       if direct ∧ cands.length ≠ 1 then none else
       let lookups ← parseLookups lk
       let store ← parseStore st
-      let reqs ← reqs.mapM (parseReq id)
-      if reqs.any (fun r => !(lookups.any (·.1 == r.offset))) then none else
-      pure ⟨id, direct, loaded, lookups, store, reqs⟩
+      let reqs ← reqs.mapM (parseReq name id)
+      if reqs.any (fun r => r.rq.parsed && !(lookups.any (·.1 == r.rq.offset))) then none else
+      pure ⟨name, id, direct, loaded, lookups, store, reqs⟩
     | _ => none
   | _ => none
 
@@ -252,6 +268,13 @@ def Case.manager (c : Case) : Manager DebugLoc SrcLoc :=
     | [some x] => ⟨some (mk x), [], c.store.locationFor, c.store.fileLen⟩
     | _ => ⟨none, [], c.store.locationFor, c.store.fileLen⟩
   else ⟨none, rs, c.store.locationFor, c.store.fileLen⟩
+
+/-- what the helper offers for a library it does not know (other name, or an id nobody has): nothing -/
+def Case.emptyManager (c : Case) : Manager DebugLoc SrcLoc :=
+  ⟨none, [], c.store.locationFor, c.store.fileLen⟩
+
+def Case.managerFor (c : Case) (r : Req) : Manager DebugLoc SrcLoc :=
+  if r.own then c.manager else c.emptyManager
 
 def showOutcome : Outcome → String
   | .ok n => s!"ok:{n}"
@@ -317,7 +340,7 @@ def model (ls : List String) : List String :=
         | some fp => encodeStr (toApiFilePath fp)))
       -- what the batched `/symbolicate/v5` model reports for this offset
       [api, showSym o (symbolicateAt toApiFilePath m (some c.id) o)])
-    perOffset ++ (serve toApiFilePath m c.reqs).map showResult
+    perOffset ++ c.reqs.map (fun r => showResult (sourceApiAt toApiFilePath (c.managerFor r) r.rq))
 
 def parseResult (l : String) : Option (Result SrcLoc) :=
   match words l with
@@ -419,12 +442,18 @@ def judge (ops impl : List String) : Bool × String :=
         match win with
         | none => none
         | some dl => c.store.locationFor dl raw
-      let rec go (reqs : List OffsetRequest) (rs : List String) (k : Nat) : Bool × String :=
+      let rec go (reqs : List Req) (rs : List String) (k : Nat) : Bool × String :=
         match reqs, rs with
         | [], _ => (true, "ok")
         | _, [] => (true, "ok")
-        | rq :: reqs, l :: rs =>
-          match parseResult l, vs.find? (·.offset == rq.offset) with
+        | r :: reqs, l :: rs =>
+          let rq := r.rq
+          -- a request for another library (name / id nobody has), or with an unparsable offset: nothing is
+          -- reported for it, nothing may be read
+          let view : Option OffsetView :=
+            if r.own && rq.parsed then vs.find? (·.offset == rq.offset) else some ⟨rq.offset, [], []⟩
+          let locFor : String → Option SrcLoc := if r.own then locFor else fun _ => none
+          match parseResult l, view with
           | none, _ => (false, s!"request {k}: bad response line")
           | _, none => (false, s!"request {k}: no view of its offset")
           | some res, some v =>
